@@ -115,7 +115,8 @@ GatherAndWriteCellH ==
          \* the list of per-task results as the parent sees it
          seen == IF Gather = "by_task" THEN res ELSE [i \in DOMAIN call.fin |-> res[call.fin[i]]]
          offOf(b) == LET k == CHOOSE k \in DOMAIN tasks : b \in Rng(tasks[k].boxes)
-                     IN seen[k][PosIn(tasks[k].boxes, b)]
+                         j == PosIn(tasks[k].boxes, b)
+                     IN IF j \in DOMAIN seen[k] THEN seen[k][j] ELSE 999   \* numpy would raise on the shape mismatch
      IN out' = [out EXCEPT !.lev[lv + 1] =
                   [files |-> @.files, cellh |-> TRUE, idx |-> L.idx,
                    fod |-> [b \in DOMAIN L.idx |-> [file |-> L.fod[b].file, off |-> offOf(b)]],
